@@ -1039,8 +1039,10 @@ def run_eval_op(g, op):
                     r = ["ok", enc([new, got])]
             else:
                 r = ["ok", enc(obj.transform(dec(op["x"]), o))]
-        except RecursionError:
-            r = ["fuel"]
+        except RecursionError as e:
+            # a genuine stack overflow is outside the model (its fuel ends the run); a RecursionError that user code
+            # raised on purpose and that escaped evaluate() unwrapped is a failure like any other
+            r = ["err", err_chain(e)] if "scripted failure of" in str(e) else ["fuel"]
         except Exception as e:
             r = ["err", err_chain(e)]
     after = [snapshot(d) for d in g.inputs] + [snapshot(o)]
